@@ -53,6 +53,8 @@ def _deco(seed, i, rot, heavy):
             ("url", f"https://ex{i}.org/p{i}"),
             ("prop", f"u{i}", f"w{i}"),
             ("iprop", f"i{i}", ["x", f"y{i}"]),
+            ("ipropns", f"n{i}", ["p", f"q{i}"]),  # [n0::p q0]: no space after the '::'
+            ("ipropns", f"m{i}", [f"one{i}"]),
             ("tag", "#", "123"), ("tag", "%", "456"), ("tag", "@", "7"), ("tag", "+", "1000"),
             ("link", f"20{20 + i}"),  # a page whose name is made of digits is still a page
         ]
